@@ -23,7 +23,8 @@
 (*                                                                         *)
 (* Cfg = [grid_size, num_agents, num_food, fov, max_agent_level,           *)
 (*        force_coop, time_limit, grid_observation, normalize_reward,      *)
-(*        penalty_num, penalty_den]           (penalty = num / den)        *)
+(*        penalty_num, penalty_den, injected]  (penalty = num / den;       *)
+(*        injected: start states come from the TLC dump, not from reset)   *)
 (* State = [agents |-> [id, position, level, loading],                     *)
 (*          food_items |-> [id, position, level, eaten], step_count]       *)
 (***************************************************************************)
@@ -118,6 +119,7 @@ NextStateO(s, act, o) ==
                    eaten |-> [f \in 1..NF |-> EatenF(s, f - 1) \/ o.eats[f - 1]]],
    step_count |-> s.step_count + 1]
 NextState(s, act) == NextStateO(s, act, Outcome(s, act))
+StepTo(s, act) == NextState(s, act)
 
 (* ---------- reward (fixed point, 16 fractional bits; each food term floors, error < 1 unit) ---------- *)
 TotalFoodLevel(s) == SumSeq(s.food_items.level)
